@@ -119,6 +119,8 @@ type Run struct {
 	backings   map[*Value]*Backing
 	bufBacking map[*Value]*Backing
 	pools      map[*Value]*PoolObj
+	atomicVals map[*Value]*anyBox
+	syncMaps   map[*Value]*MapV
 }
 
 type InputMeta struct {
